@@ -8,7 +8,7 @@ VERUS = os.environ.get("VERIF_VERUS", "verus")
 
 
 def run_verus(path, rlimit=None, seed=None, timeout=900, extra=()):
-    me = "12"
+    me = "4"
     if "--multiple-errors" in extra:
         i = list(extra).index("--multiple-errors"); me = extra[i + 1]; extra = tuple(list(extra)[:i] + list(extra)[i + 2:])
     cmd = [VERUS, os.path.basename(path), "--output-json", "--time", "--multiple-errors", me,
